@@ -156,8 +156,11 @@ func openOpts(dir string, t []string) (*qdb.DB, bool) {
 		n[i], _ = strconv.ParseUint(t[2+i], 10, 32)
 	}
 	var db *qdb.DB
-	qdb.NewDBExt(&db, &qdb.NewDBOpts{Dir: dir, LoadData: load, Volatile: vol,
-		ExtraOpts: &qdb.ExtraOpts{DefragPercentVal: uint32(n[0]), ForcedDefragPerc: uint32(n[1]), MaxPending: uint32(n[2]), MaxPendingNoSync: uint32(n[3])}})
+	eo := &qdb.ExtraOpts{DefragPercentVal: uint32(n[0]), ForcedDefragPerc: uint32(n[1]), MaxPending: uint32(n[2]), MaxPendingNoSync: uint32(n[3])}
+	if strings.Join(t[2:6], " ") == defOpts {
+		eo = nil // the package's own defaults (the model has them as literals; gen_c19 re-reads them from the source)
+	}
+	qdb.NewDBExt(&db, &qdb.NewDBOpts{Dir: dir, LoadData: load, Volatile: vol, ExtraOpts: eo})
 	return db, vol
 }
 
